@@ -31,7 +31,7 @@ func init() {
 			"fragmenting readers obey the io.Reader contract: at least one byte or an error per call for non-empty p; n > 0 may come together with io.EOF",
 			"failure kinds: ok / tracks missing / end-of-data family / other",
 		},
-		Require: []string{"reads_from_sources_with_len_method", "several_big_payload_reads", "files_with_bytes_behind_end_of_track", "fragmented_reads", "short_reads_in_multibyte_field", "split_points", "eof_with_data_reads", "truncated_files", "compared_ok_values", "compared_failures", "big_payload_files", "big_truncated_reads", "file_and_bufio_reads", "pipe_reads", "extended_header_files"},
+		Require: []string{"reads_from_sources_with_len_method", "several_big_payload_reads", "files_with_bytes_behind_end_of_track", "fragmented_reads", "short_reads_in_multibyte_field", "split_points", "eof_with_data_reads", "truncated_files", "compared_ok_values", "compared_failures", "big_payload_files", "big_truncated_reads", "file_and_bufio_reads", "pipe_reads", "extended_header_files", "fragmented_reads_with_log_option"},
 		Run:     runC09,
 	})
 }
@@ -157,7 +157,13 @@ func runC09(c *mon.Ctx) {
 			in := map[string]any{"file": mon.Hex(b), "fragmentation": label, "chunks": head32(chunks, 40)}
 			var got *smf.SMF
 			var err error
-			if c.Guard("panic:fragmented", in, func() { got, err = smf.ReadFrom(src) }) {
+			if strings.Contains(label, "+Log") {
+				// the same read with the Log option: what is logged on the way does not change what is read
+				if c.Guard("panic:fragmented", in, func() { got, err = smf.ReadFrom(src, smf.Log(&nullLogger{})) }) {
+					return
+				}
+				c.Count("fragmented_reads_with_log_option", 1)
+			} else if c.Guard("panic:fragmented", in, func() { got, err = smf.ReadFrom(src) }) {
 				return
 			}
 			c.Count("fragmented_reads", 1)
@@ -210,6 +216,9 @@ func runC09(c *mon.Ctx) {
 		}
 		check("one-byte+Len", ones, false)
 		check("data+eof", nil, true)
+		check("data+eof+Log", nil, true)
+		check("one-byte+eof+Log", ones, true)
+		check("random-partition+Log", r.Partition(len(b), r.Pick(2, 3, 16, 100)), r.Bool())
 		if i < 1 {
 			c.Sample("file", map[string]any{"bytes": mon.Hex(head(b, 120)), "in-memory result": wk, "fragmentations": fmt.Sprintf("%d split points + one-byte + 5 random + data+EOF", limit-1)})
 		}
